@@ -226,3 +226,34 @@ def r6(ctx, R):
     want = ['residual[i1 - 1] += -L.u[i1] for i1=1..M', 'residual[i1 - 1] += +L.u[0] for i1=1..M']
     alt = [d for d in cs if d.startswith('residual[')]
     R.check(sorted(re.sub(r'self\.level', 'L', re.sub(r'self\.coll\.num_nodes', 'M', d)) for d in alt) == sorted(want) or sorted(alt) == sorted(want), 'get_residual :: residual[m] = integrate()[m] - u[m+1] + u[0]', f'{SW}:QDiagonalization.get_residual', want, alt)
+
+
+@rule('C15', 'C15.R7', 'the all-at-once residual is the right-hand side of every iteration, so it is ALWAYS recomputed: the ParaDiag controller calls compute_residual() without a stage name (a named stage can be switched off through sweeper_params[\'skip_residual_computation\'], after which every iteration would re-transform a stale residual)', floor=3)
+def r7(ctx, R):
+    repo = ctx.repo
+    rel = 'pySDC/implementations/controller_classes/controller_ParaDiag_nonMPI.py'
+    n = 0
+    for m, ci, fn in repo.all_functions():
+        if m.relpath != rel:
+            continue
+        for c in ast.walk(fn):
+            if isinstance(c, ast.Call) and isinstance(c.func, ast.Attribute) and c.func.attr == 'compute_residual':
+                n += 1
+                w = f'{rel}:{ci.name}.{fn.name}'
+                R.fn(w)
+                args = [ast.unparse(a) for a in c.args] + [f'{k.arg}={ast.unparse(k.value)}' for k in c.keywords]
+                R.check(not args, f'{ci.name}.{fn.name} :: compute_residual() is called unconditionally skippable-free (no stage)', w, 'compute_residual()', ast.unparse(c))
+    if n < 2:
+        raise AnalysisError(f'C15.R7: expected the residual computations of spread and compute_all_at_once_residual, found {n}')
+    # the premise: a named stage IS skippable in the base class, the default is not
+    sw = repo.func('pySDC/core/sweeper.py', 'Sweeper.compute_residual')
+    cfg = FuncCFG(sw)
+    early = [s for s in cfg.stmt_of.values() if isinstance(s, ast.Return) and any('skip_residual_computation' in ast.unparse(t) and pol for t, pol in cfg.guards.get(id(s), ()))]
+    dflt = [ast.unparse(d) for d in sw.args.defaults]
+    R.check(len(early) == 1 and dflt in (["''"], ['None']), 'Sweeper.compute_residual :: returns early only for a stage listed in skip_residual_computation; the default stage is the empty name', 'pySDC/core/sweeper.py:Sweeper.compute_residual', "if stage in self.params.skip_residual_computation: return; default stage ''", {'early returns': len(early), 'default': dflt})
+
+
+@rule('C15', 'C15.R8', 'ParaDiag over several blocks gives the serial answer only if run() chains the blocks like the serial controller: the value carried to the next block is uend of the last step, or u[0] of the first restarted step (value chain of run(), shared with C06.R1)', floor=12)
+def r8(ctx, R):
+    from . import c06
+    c06.r1(ctx, R)
